@@ -250,11 +250,15 @@ class CSSStyleRule(cssrule.CSSRule):
             current style object.
         """
         self._checkReadonly()
+        oldStyle = getattr(self, '_style', None)
         if isinstance(style, str):
             self._style = CSSStyleDeclaration(cssText=style, parentRule=self)
         else:
             style._parentRule = self
             self._style = style
+        if oldStyle is not None and oldStyle is not self._style:
+            # the replaced declaration is not part of this rule anymore
+            oldStyle._parentRule = None
 
     style = property(
         lambda self: self._style,
